@@ -132,6 +132,25 @@ def run(tier, seed):
         check_decode(cbor2.dumps(m), c.pk, "rsa minimal")
         m2 = dict(m); m2[-1] = b"\x00" + m[-1]; m2[-2] = b"\x00\x00" + m[-2]
         check_decode(cbor2.dumps(m2), c.pk, "rsa leading zero bytes")
+    # RSA exponents other than 65537 (byte strings that are not palindromes), incl. a real ceremony
+    for e in (65539, 3, 0x0103, 17):
+        c = authsim.rsa_cred_exponent(e)
+        check_decode(c.cose_bytes, c.pk, f"rsa exponent {e}")
+        s = authcat.Scn("RS256")
+        pol0, a = s.build()
+        a.sig = c.sign(a.ad + hashlib.sha256(a.cdj).digest())
+        B.run_case(impl.AuthPolicy(pol0.challenge, pol0.rp_id, pol0.origin, c.cose_bytes, pol0.count, False), a, "record", "accept", f"rsa exponent {e}")
+    # raw 65-byte P-256 keys whose x (and y) coordinate begins with the 0x04 format byte / with 0x00
+    for prefix in (b"\x04", b"\x00"):
+        c = authsim.p256_cred_with_x_prefix(prefix)
+        n = c.pk.public_numbers()
+        raw = b"\x04" + n.x.to_bytes(32, "big") + n.y.to_bytes(32, "big")
+        check_decode(raw, c.pk, f"raw uncompressed P-256 key, x starts with {prefix.hex()}")
+        check_decode(c.cose_bytes, c.pk, f"COSE P-256 key, x starts with {prefix.hex()}")
+        s = authcat.Scn("ES256-P256")
+        pol0, a = s.build()
+        a.sig = c.sign(a.ad + hashlib.sha256(a.cdj).digest())
+        B.run_case(impl.AuthPolicy(pol0.challenge, pol0.rp_id, pol0.origin, raw, pol0.count, False), a, "record", "accept", f"raw key x-prefix {prefix.hex()}")
     c = authsim.Cred("EdDSA")
     check_decode(c.cose_bytes, c.pk, "ed25519")
     B.close()
